@@ -2533,4 +2533,18 @@ example :
      | _ => false) = true := by
   decide +kernel
 
+/-- **`emitted_applies_of_result`** — the reduction the general `delete_applies` can go through: a `ReplaceStep(F, T, sl)`
+    (in particular the Fitter's answer) applies to a document in normal form as soon as a valid child list `K` in normal
+    form exists (the document the operation is to return) whose cut `[F, T₀)` is the slice, with the same content as
+    the document in front of `F` (`LeftRel`) and behind `T₀` the content of the document behind `T`, the joined ancestors
+    `compatible_content` (`RightRel`; Proofs/UndoRel.lean).  For a deletion `K` is: the document's nodes along `from`
+    with the fillers `close_frontier_node` added, joined level by level with the rest of the nodes along `t'`. -/
+theorem emitted_applies_of_result (S : Schema) (ty0 : TypeId) (a0 : Attrs) (m0 : Marks) (K' K : List Node)
+    (F T T₀ : Nat) (sl : Slice)
+    (hvc : S.validContent ty0 K = true) (hv : S.checkKids K = true) (hn : fnorm K = true)
+    (hn' : fnorm K' = true) (hft : F ≤ T₀) (ht : T₀ ≤ fsize K) (hft' : F ≤ T)
+    (hs : sliceKids K F T₀ = .ok sl) (hL : LeftRel K' K F) (hR : RightRel S K' T K T₀) :
+    ∃ doc', S.apply (.replace F T sl false) (.elem ty0 a0 m0 K') = .ok doc' :=
+  replace_applies_of_result S ty0 a0 m0 K K' F T₀ T sl hvc hv hn hn' hft ht hft' hs hL hR
+
 end PM.C11
